@@ -188,6 +188,19 @@ def run(ctx):
     arch.append(("Bourtsoulatze2019", lambda: (Bourtsoulatze2019DeepJSCCEncoder(8), Bourtsoulatze2019DeepJSCCDecoder(8)), 4, 8, {}, 4, (0.0, 1.0)))
     arch.append(("Tung2022Q", lambda: (Tung2022DeepJSCCQEncoder(N=8, M=4), Tung2022DeepJSCCQDecoder(N=8, M=4)), 16, 4, {}, 16, None))
     arch.append(("Tung2022Q2", lambda: (Tung2022DeepJSCCQ2Encoder(N=8, M=4), Tung2022DeepJSCCQ2Decoder(N=8, M=4)), 4, 4, {"csi": True}, 4, None))
+    from kaira.models.image.kurka2020_deepjscc_feedback import DeepJSCCFeedbackDecoder as _KDec, DeepJSCCFeedbackEncoder as _KEnc
+
+    class _PadTo(nn.Module):            # the feedback decoder consumes 256 channels: pad the latent with zeros as the model does
+        def __init__(self, dec):
+            super().__init__()
+            self.dec = dec
+
+        def forward(self, z, *a, **k):
+            need = next(p_ for p_ in self.dec.parameters() if p_.dim() == 4).shape[0]
+            if z.shape[1] < need:
+                z = torch.cat([z, torch.zeros(z.shape[0], need - z.shape[1], z.shape[2], z.shape[3])], dim=1)
+            return self.dec(z)
+    arch.append(("Kurka2020Feedback", lambda: (_KEnc(8), _PadTo(_KDec(3))), 4, 8, {}, 4, (0.0, 1.0)))
     traced = []
     gradstat = {}
 
@@ -196,9 +209,15 @@ def run(ctx):
 
         def hook(m, inp, out):
             traced.append((m, int(inp[0].shape[-2]), int(out.shape[-2]), int(inp[0].shape[-1]), int(out.shape[-1])))
+        def keep_hook(m, inp, out):
+            # layers the translator treats as size-preserving (GDN, PReLU, Sigmoid, ...) must be so
+            if type(m).__name__ in archs.ELEMENTWISE and hasattr(out, "shape") and inp and hasattr(inp[0], "shape") and tuple(out.shape) != tuple(inp[0].shape):
+                ctx.broken.append("translator assumption: %s changed the shape %s -> %s" % (type(m).__name__, tuple(inp[0].shape), tuple(out.shape)))
         for m in model.modules():
             if isinstance(m, (nn.Conv2d, nn.ConvTranspose2d)):
                 hooks.append(m.register_forward_hook(hook))
+            elif type(m).__name__ in archs.ELEMENTWISE:
+                hooks.append(m.register_forward_hook(keep_hook))
         return hooks
 
     for aname, mk, down, cout, extra, mult, out_range in arch:
